@@ -70,7 +70,8 @@ def pool_core(rng, n_extra):
     return P
 
 
-OPENS = {"dz": "dwz-partial", "nt": "nontrivial-types.o", "a1": "a1.out", "dz2": "dwz-partial", "dz21": "dwz-partial2-1", "dz31": "dwz-partial3-1"}
+OPENS = {"dz": "dwz-partial", "nt": "nontrivial-types.o", "a1": "a1.out", "dz2": "dwz-partial", "dz21": "dwz-partial2-1", "dz31": "dwz-partial3-1",
+         "ya": "y.o", "ym": "y-mips.o"}
 
 
 DISTINCT = []
@@ -105,6 +106,24 @@ def pool_dwarf():
             P.append(("%s,%s" % (h, q("[entry ?(raw parent ?TAG_partial_unit) parent] elem ?%d" % (k * 3))), "die"))
         P.append(("%s,%s" % (h, q("[entry ?(raw parent ?TAG_partial_unit) parent] relem ?0")), "die"))
         P.append(("%s,%s" % (h, q("[entry ?(raw parent ?TAG_partial_unit) parent parent* ?root] relem ?1")), "die"))
+    # DIEs that came in through two and three nested imports (unit -> partial unit -> partial unit of the supplementary file): every
+    # one of them against its own copy and against the others
+    def count(h, enum):
+        dd = common.Driver()
+        try:
+            rc = dd.run("[%s] length" % enum, inp="d:" + common.hx(os.path.join(common.REPO, "tests", OPENS[h[2:]])), fuel=0, max=3, timeout=120)
+            return int(rc["res"][0][-1]["v"]) if rc["st"] == "done" and rc["res"] else 0
+        finally:
+            dd.kill()
+    for h in ("v:dz21", "v:dz31"):
+        n = count(h, "entry")
+        for k in range(1, n, max(1, n // 10)):
+            P.append(("%s,%s" % (h, q("[entry] elem ?%d" % k)), "die"))
+    # symbols of two files (of different machines) in one relation
+    for h in ("v:ya", "v:ym"):
+        n = count(h, "symbol")
+        for k in [k for k in (1, 3, 5, 8) if k < n]:
+            P.append(("%s,%s" % (h, q("[symbol] elem ?%d" % k)), "sym"))
     # values that are DIFFERENT by construction: the k-th and the l-th thing one enumeration yields (units of the main and of the
     # supplementary file of a1.out -- both have a unit at offset 0 --, DIEs, symbols): no two of one group may compare equal
     for h, enum, ty, ks in (("v:a1", "raw unit", "cu", range(6)), ("v:a1", "unit", "cu", range(3)), ("v:dz21", "raw unit", "cu", range(6)),
